@@ -1,4 +1,5 @@
 import SdModel.Lemmas.Lev
+import SdModel.Lemmas.LevSelf
 import SdModel.Props.C08
 
 /-!
@@ -112,5 +113,30 @@ theorem absent_only_if_equal (eq : α → α → Bool) (t s : List α)
   rcases h with h | h
   · have := roundtrip_hirschberg eq t s; rw [h] at this; exact this
   · have := roundtrip_levenshtein eq t s; rw [h] at this; exact this
+
+/-- conversely, for a reflexive element equality identical sequences give NO diff (both algorithms): in the
+divide-and-conquer driver the split chosen from the two last rows is the diagonal one at every level -/
+theorem absent_if_identical (eq : α → α → Bool) (hrefl : ∀ x, eq x x = true) (t : List α) :
+    hirschberg eq costs Gen.levCutoff t t = none ∧ levenshtein eq costs t t = none :=
+  ⟨hirschberg_self eq hrefl costs costs_pos.1 costs_pos.2.1 costs_pos.2.2 _ t, levenshtein_self eq hrefl costs t⟩
+
+theorem PW_eq_of_lawful [DecidableEq α] (a b : List α) (h : PW (fun x y => decide (x = y)) a b) : a = b := by
+  induction h with
+  | nil => rfl
+  | cons hx _ ih =>
+    rcases hx with rfl | hx
+    · rw [ih]
+    · simp only [decide_eq_true_eq] at hx; rw [ih, hx]
+
+/-- for a lawful equality (`==` is `=`): the diff is absent exactly when source and target are equal.
+(Reflexivity is needed for "if": with `f64`'s `NaN != NaN` the list `[NaN]` differs from itself, and the code
+then emits a `Replace`; the correspondence check exercises that case.) -/
+theorem absent_iff_eq [DecidableEq α] (t s : List α) :
+    hirschberg (fun a b => decide (a = b)) costs Gen.levCutoff t s = none ↔ s = t := by
+  constructor
+  · intro h
+    exact PW_eq_of_lawful s t (absent_only_if_equal (fun a b => decide (a = b)) t s (.inl h))
+  · rintro rfl
+    exact (absent_if_identical _ (by simp) s).1
 
 end C07
